@@ -17,7 +17,7 @@ ASSUMPTIONS = [
     'reference mask: interstorm_i <=> rain_i = 0, some rain earlier in the stretch, no jump at a sample in (last rainy, i]',
     'jump_i <=> i > 0 and zeta_i - zeta_(i-1) > j * step_h (origin-free form); tie band as in C03',
 ]
-SIZES = {'quick': dict(n=1400, cli=60, sub=0, field=0), 'thorough': dict(n=48000, cli=1600, sub=0, field=48)}
+SIZES = {'quick': dict(n=3200, cli=80, sub=0, field=0), 'thorough': dict(n=48000, cli=1600, sub=0, field=48)}
 REQUIRED = {
     tier: {
         'classifications-completed': 100,
